@@ -236,11 +236,18 @@ def resolve_caps(hdir, target_dir, harness, caps, extra_args, log_path):
     except Exception:
         return []
     sets = []
-    for pat, bound in caps:
+    for cap in caps:
+        # (pattern, bound) caps the RECURSION of the matching functions; (pattern, bound, k) sets the bound of LOOP k
+        # of the matching functions (a loop that needs more iterations than the harness-wide #[kani::unwind] without
+        # inflating every other loop). Unwinding assertions stay on either way.
+        pat, bound = cap[0], cap[1]
         rx = re.compile(pat)
         for mangled, pretty in d.items():
             if pretty and rx.search(pretty):
-                sets.append("%s:%d" % (mangled, bound))
+                if len(cap) > 2:
+                    sets.append("%s.%d:%d" % (mangled, cap[2], bound))
+                else:
+                    sets.append("%s:%d" % (mangled, bound))
     if not sets:
         return []
     return ["--unwindset", ",".join(sorted(set(sets)))]
